@@ -444,4 +444,27 @@ pub async fn run_coordinator_boundaries(ctx: &mut Ctx, w: &mut World) {
         }
         ctx.stat("boundary_rf1");
     }
+    // the coordinator's quorum arithmetic for EVERY replication factor: `run` with no reachable
+    // replica holds exactly one copy (its own), so it may acknowledge iff rf/2+1 <= 1, and the
+    // quorum it reports must be rf/2+1 (compared with the model's `quorum`)
+    for rf in 1..=12u8 {
+        let pid = w.next_partition; w.next_partition += 1;
+        let mut txs = Txs::new(pid);
+        let op = format!("c10 quorum {rf}");
+        let res = world::run_alone(w, &w.db, rf, txs.get(1)).await;
+        let need = rf as u64 / 2 + 1;
+        let line = match &res {
+            Ok((_, n)) => format!("ack {n}"),
+            Err(e) => match e.split("required: ").nth(1).and_then(|x| x.split(|c: char| !c.is_ascii_digit()).next()).and_then(|x| x.parse::<u64>().ok()) {
+                Some(q) if e.contains("ReplicationQuorumFailed") => format!("noquorum {q}"),
+                _ => format!("err:{}", e.replace(' ', "_").chars().take(80).collect::<String>()),
+            },
+        };
+        ctx.stat("boundary_quorum_rf");
+        let ok = if need <= 1 { line.starts_with("ack") } else { line == format!("noquorum {need}") };
+        if !ok {
+            ctx.oracle_fail(&format!("C11:coordinator-quorum rf={rf}"), &format!("run with replication factor {rf} and no reachable replica (1 copy, a quorum is {need}) answered `{line}`"), &[op.clone()]);
+        }
+        ctx.emit(&op, &line);
+    }
 }
